@@ -139,6 +139,40 @@ def h_ip(ctx, spelled, compressed, version, zone_n, route):
     ctx.check("encode-idempotent", again[0] == "ok" and sym_eq(again[1], exp_sub))
 
 
+def h_ip_default_port(ctx, spelled, compressed):
+    """IPv6 literal with the scheme's default port written explicitly: brackets survive the port elision"""
+    P = ctx.P
+    user = ctx.str("u", 1, lo=33, hi=126, alphabet="abcXYZ019-._~!$&'()*+,;=")
+    for sc, port in (("http", 80), ("https", 443), ("ws", 80), ("ftp", 21)):
+        for ui in ("", user + "@"):
+            r = call(P.URL, sc + "://" + ui + "[" + spelled + "]:" + str(port) + "/p")
+            ctx.check("accepted", r[0] == "ok", r[1])
+            u = r[1]
+            ctx.check("str-bracketed-without-default-port", sym_eq(str(u), sc + "://" + ui + "[" + compressed + "]/p"))
+            ctx.check("host_port_subcomponent", sym_eq(u.host_port_subcomponent, "[" + compressed + "]"))
+            back = call(P.URL, str(u))
+            ctx.check("reparses-to-same-host", back[0] == "ok" and sym_eq(back[1].raw_host, compressed))
+    ctx.observe("done", True)
+
+
+def h_nfkc_concrete(ctx):
+    """NOT part of the solver claim: concrete enumeration of every code point whose NFKC form contains a URL delimiter
+    (computed from the interpreter's unicodedata) in host and userinfo position - each must be rejected"""
+    import unicodedata
+    P = ctx.P
+    bad = [chr(c) for c in range(0x80, 0x110000) if not (0xD800 <= c <= 0xDFFF) and any(d in unicodedata.normalize("NFKC", chr(c)) for d in "/?#@:")]
+    ctx.check("the-table-is-not-empty", len(bad) > 10, len(bad))
+    for ch in bad:
+        for text in ("http://a" + ch + "b/p", "http://u" + ch + "@h/", "//h" + ch):
+            r = call(P.URL, text)
+            ctx.check("nfkc-delimiter-rejected", r[0] == "exc" and r[1] == "ValueError", (hex(ord(ch)), text, r[:2]))
+    ok = [chr(c) for c in (0xE9, 0x3B1, 0x4E2D, 0x1F600, 0xFF21, 0x2122, 0xB2)]
+    for ch in ok:
+        r = call(P.URL, "http://u" + ch + ":p@h/")
+        ctx.check("harmless-non-ascii-userinfo-accepted", r[0] == "ok", (hex(ord(ch)), r[:2]))
+    ctx.observe("done", len(bad))
+
+
 def families(tier):
     q = tier == "quick"
     fams = []
@@ -146,6 +180,10 @@ def families(tier):
         for route in ("encode", "build", "with_host"):
             fams.append(Family("regname/%s/n=%d" % (route, n), h_regname, dict(n=n, route=route)))
         fams.append(Family("ctor-host/n=%d" % n, h_ctor_host, dict(n=n)))
+    for sp, comp, ver in IPS:
+        if ver == 6 and (sp in ("::1", "2001:DB8::FF00:42:8329", "::ffff:1.2.3.4") or not q):
+            fams.append(Family("ip-default-port/%s" % sp, h_ip_default_port, dict(spelled=sp, compressed=comp)))
+    fams.append(Family("nfkc-screen-concrete", h_nfkc_concrete, {}))
     for sp, comp, ver in IPS:
         for zn in ((0, 1, 2) if q else (0, 1, 2, 3)):
             if zn and ver != 6:
